@@ -1,6 +1,6 @@
 (* C11 -- uncommitted changes are never swept into the bump commit. *)
 From Coq Require Import List Bool NArith.
-From BV Require Import Lib.PyStr Model.V2 Model.Vcs Proofs.VcsFacts.
+From BV Require Import Lib.PyStr Model.V2 Model.Vcs Proofs.VcsFactsC11.
 Import ListNotations.
 Local Open Scope N_scope.
 
